@@ -346,13 +346,16 @@ class Interp:
                 if not fit:
                     self.unsupported(f"call of {f.qualname}: none of its contracts ({', '.join(k.name for k in c)}) "
                                      f"covers these argument kinds", node)
-                c = fit[0]
+                # every fitting contract speaks about this call: the first provides the result and the effects,
+                # the others add their pre-conditions (obligations) and post-conditions (facts) about the same result
+                return apply_contract_at_call(self, fit[0], f, args, kwargs, node, also=fit[1:])
             return apply_contract_at_call(self, c, f, args, kwargs, node)
         # pure spec functions (defined in contract / spec modules) called again with the very same
         # immutable arguments give the same value: memoised per path
         memo_key = None
         if f.modname in self.config.get('spec_modules', ()) and not kwargs \
-                and any(isinstance(a, SymList) for a in args):
+                and any(isinstance(a, SymList) or (isinstance(a, SList) and any(isinstance(x, ListSeg) for x in a.items))
+                        for a in args):
             model = self.config.get('symlist_models', {}).get(f.qualname)
             if model is not None:       # without a model the body is interpreted (generators become folds/quantifiers)
                 r = model(self, list(args))
@@ -1168,6 +1171,16 @@ class Interp:
         if sym == '+':
             if is_strlike(a) and is_strlike(b):
                 return str_concat(a, b)
+            if (isinstance(a, SymList) and a.pytype is list and isinstance(b, (SList, SymList))) or \
+                    (isinstance(a, SList) and isinstance(b, SymList) and b.pytype is list):
+                def seg(x):
+                    return [ListSeg(x.snapshot())] if isinstance(x, SymList) else list(x.items)
+                if inplace and isinstance(a, SList):
+                    a.items.extend(seg(b))
+                    return a
+                if inplace:
+                    self.unsupported("+= on a list of symbolic length", node)
+                return SList(seg(a) + seg(b))
             if isinstance(a, SList) and isinstance(b, SList):
                 if inplace:
                     a.items.extend(b.items)
